@@ -33,12 +33,25 @@ def make_bay(it):
     return bay
 
 
-def skin(it, bay, name, y1, y2):
-    p = panelctx.new_panel(it, a=bay.attrs['a'], b=bay.attrs['b'], y1=y1, y2=y2, stack=[real('ths')], plyts=[real('tskin_' + name)],
-                           laminaprops=[tuple(real(x + 's') for x in MAT)], mu=real('mu_' + name), m=bay.attrs['m'], n=bay.attrs['n'],
-                           model='plate_clt_donnell_bardell')
+def skin(it, bay, name, y1, y2, lazy=False):
+    """lazy: the skin is defined by one ply thickness and one material (what StiffPanelBay.add_panel does by default); its per-ply lists
+    exist only after its first _rebuild"""
+    lamkw = (dict(plyt=real('tskin_' + name), laminaprop=tuple(real(x + 's') for x in MAT)) if lazy else
+             dict(plyts=[real('tskin_' + name)], laminaprops=[tuple(real(x + 's') for x in MAT)]))
+    p = panelctx.new_panel(it, a=bay.attrs['a'], b=bay.attrs['b'], y1=y1, y2=y2, stack=[real('ths')], mu=real('mu_' + name), m=bay.attrs['m'], n=bay.attrs['n'],
+                           model='plate_clt_donnell_bardell', **lamkw)
+    if lazy:
+        # as StiffPanelBay.add_panel leaves them (p.plyts = bay.plyts, p.laminaprops = bay.laminaprops: empty lists)
+        p.attrs['plyts'] = []
+        p.attrs['laminaprops'] = []
     p.name = name
     return p
+
+
+def unfinalized(wrap):
+    """the component matrices are requested with finalize=False (the bay completes the sum once): a component that completes its own
+    matrix would have its mirrored part completed again"""
+    return ['the component matrix is completed (%s) although finalize=False was requested' % wrap[0]] if wrap else []
 
 
 def kernels_of(r):
@@ -66,6 +79,8 @@ def view_diffs(t, expect, label=''):
     for key, e in expect.items():
         if key == 'mu' and key not in pv:
             continue                      # only the mass kernels read the density
+        if key in FLAG_NAMES and key not in pv:
+            continue                      # a kernel reads only the edge flags of the fields it integrates
         if key not in pv:
             out.append('%s%s: the kernel term does not record panel.%s' % (label, t.f['fn'], key))
         elif not peq(pv[key], e):
@@ -141,6 +156,7 @@ def check_tstiff2d(led):
             for t in kern:
                 byfn.setdefault(t.f['fn'], []).append(t)
             probs = []
+            probs += unfinalized(wrap)
             # panels
             fk = [t for t in kern if t.f['fn'] in ('fk0', 'fk0y1y2')]
             if len(fk) != 2:
@@ -447,8 +463,8 @@ def check_bladestiff1d(led, which=('k0', 'kG0', 'kM')):
                 for wh, (fn, args) in want.items():
                     if wh not in which:
                         continue
-                    probs = []
                     wrap, kern, scales = kernels_of(mats[wh])
+                    probs = unfinalized(wrap)
                     byfn = {}
                     for t in kern:
                         byfn.setdefault(t.f['fn'], []).append(t)
@@ -465,7 +481,7 @@ def check_bladestiff1d(led, which=('k0', 'kG0', 'kM')):
                         t = byfn[o][0]
                         y1, y2 = ys - bb * Fraction(1, 2), ys + bb * Fraction(1, 2)
                         probs += ['base %s: %s' % (o, d) for d in arg_diffs(t, dict(size=size, row0=row0, col0=row0, y1=y1, y2=y2))]
-                        probs += view_diffs(t, dict(a=bay.attrs['a'], b=bay.attrs['b'], m=bay.attrs['m'], n=bay.attrs['n'], mu=real('mu')), 'base ')
+                        probs += view_diffs(t, dict(flags_of(bay), a=bay.attrs['a'], b=bay.attrs['b'], m=bay.attrs['m'], n=bay.attrs['n'], mu=real('mu')), 'base ')
                     if any(k != 1 for k in scales):
                         probs.append('a contribution is scaled')
                     report(led, '%s[%s]' % (B1 + 'calc_' + wh, tag), B1 + 'calc_' + wh, probs)
@@ -572,12 +588,12 @@ out = dict(min_eig=float(w.min()), max_eig=float(w.max()), E1=float(s.E1), S1=fl
 
 
 # ---------------------------------------------------------------------------------------------------------------- BladeStiff2D
-def check_bladestiff2d(led):
+def check_bladestiff2d(led, only=None):
     """BladeStiff2D: base on the skin's own amplitudes (block at 0), flange plate at (row0, col0), the three penalty blocks
     skin-skin at (0, 0), skin-flange at (0, col0), flange-flange at (row0, col0), all with one pair of penalty constants."""
     for meth in ('__init__', '_rebuild', 'calc_k0', 'calc_kG0', 'calc_kM'):
         led.function(BF2 + meth)
-    for with_base in (False, True):
+    for with_base, lazy in ((False, False), (True, False), (True, True)):
         it, calls = py_panel.mk()
         _with_plies(it)
         mod = it.module('compmech.stiffener.bladestiff2d')
@@ -587,14 +603,14 @@ def check_bladestiff2d(led):
                 it.contracts[f.qualname] = panelctx.kernel_contract(it, f, calls)
         it.algebraic_minmax = True
         holder = {}
-        tag = 'with base' if with_base else 'no base'
+        tag = ('with base' if with_base else 'no base') + (', skins defined by one ply thickness' if lazy else '')
 
         def run():
             del calls[:]
             bay = make_bay(it)
             ys = real('ys')
-            p1 = skin(it, bay, 'skin1', P.const(0), ys)
-            p2 = skin(it, bay, 'skin2', ys, bay.attrs['b'])
+            p1 = skin(it, bay, 'skin1', P.const(0), ys, lazy)
+            p2 = skin(it, bay, 'skin2', ys, bay.attrs['b'], lazy)
             bb, bf = real('bb'), real('bf')
             it.facts[:] = [to_z3(bay.attrs['a']) > 0, to_z3(bay.attrs['b']) > 0, to_z3(bay.attrs['a']) <= 10 * to_z3(bay.attrs['b']), to_z3(bb) > 0, to_z3(bf) > 0]
             matb = tuple(real(x + 'b') for x in MAT)
@@ -606,6 +622,10 @@ def check_bladestiff2d(led):
                                                        mf=integer('mf'), nf=integer('nf')))
             size, row0 = integer('size'), integer('row0')
             out = {}
+            if lazy:
+                # StiffPanelBay._rebuild rebuilds the skin panels before the stiffeners in every calc_* method
+                it.call(it.getattr(p1, '_rebuild'), [], {})
+                it.call(it.getattr(p2, '_rebuild'), [], {})
             for which in ('k0', 'kG0', 'kM'):
                 del calls[:]
                 it.call(it.getattr(s, 'calc_' + which), [], dict(size=size, row0=row0, col0=row0, silent=True, finalize=False))
@@ -627,8 +647,10 @@ def check_bladestiff2d(led):
             bayfl = {k: bay.attrs[k] for k in FLAG_NAMES}
             geo = dict(a=bay.attrs['a'], b=bay.attrs['b'], m=bay.attrs['m'], n=bay.attrs['n'])
             for which in ('k0', 'kG0', 'kM'):
-                probs = []
+                if only and which not in only:
+                    continue
                 wrap, kern, scales = kernels_of(mats[which])
+                probs = unfinalized(wrap)
                 byfn = {}
                 for t in kern:
                     byfn.setdefault(t.f['fn'], []).append(t)
@@ -646,7 +668,7 @@ def check_bladestiff2d(led):
                         probs += view_diffs(t, dict(a=bay.attrs['a'], b=bf, m=integer('mf'), n=integer('nf'), mu=real('mu')), 'flange ')
                     elif fn == pk + 'y1y2':
                         probs += ['base %s: %s' % (fn, d) for d in arg_diffs(t, dict(size=size, row0=0, col0=0, y1=y1, y2=y2))]
-                        probs += view_diffs(t, dict(a=bay.attrs['a'], b=bay.attrs['b'], m=bay.attrs['m'], n=bay.attrs['n'], mu=real('mu')), 'base ')
+                        probs += view_diffs(t, dict(flags_of(bay), a=bay.attrs['a'], b=bay.attrs['b'], m=bay.attrs['m'], n=bay.attrs['n'], mu=real('mu')), 'base ')
                     elif fn == 'fkCss':
                         probs += ['fkCss: ' + d for d in arg_diffs(t, dict(geo, ys=ys, size=size, row0=0, col0=0, **bayfl))]
                     elif fn == 'fkCsf':
@@ -675,13 +697,42 @@ def check_bladestiff2d(led):
             for f in ('u1ty', 'v1ty', 'w1ty', 'w1ry'):
                 if not peq(flange.attrs[f], 1):
                     probs.append('flange flag %s = %s: the attached edge must be free for the penalty to act' % (f, pycheck.describe(flange.attrs[f])))
-            report(led, '%s[%s]/panels' % (BF2 + '__init__', tag), BF2 + '__init__', probs)
+            report(led, '%s[%s]/panels' % (BF2 + '__init__', tag), BF2 + '__init__', probs, replay=replay_blade2d_offset if (probs and with_base) else None,
+                   signature='blade2d-panels:' + ';'.join(probs)[:100])
         led.solver_time('z3-feasibility', it.solver_time)
 
 
-def check_tstiff2d_kG0_kM(led):
+def replay_blade2d_offset():
+    """real bay: skin panels added with the bay's single ply thickness, 2-D blade stiffener with a base; offset of the base laminate after
+    calc_k0, against the same bay with the per-ply lists given explicitly"""
+    from ..pyreplay import run_real
+    script = '''
+import numpy as np
+from compmech.stiffpanelbay import StiffPanelBay
+lp = (142.5e9, 8.7e9, 0.28, 5.1e9, 5.1e9, 5.1e9)
+def bay(explicit):
+    spb = StiffPanelBay()
+    spb.a = 2.; spb.b = 1.; spb.m = 4; spb.n = 4; spb.model = 'plate_clt_donnell_bardell'
+    spb.stack = [0, 90, 90, 0]; spb.plyt = 1.25e-4; spb.mu = 1.3e3; spb.laminaprop = lp
+    kw = dict(plyts=[1.25e-4]*4) if explicit else {}
+    spb.add_panel(y1=0, y2=0.5, **kw); spb.add_panel(y1=0.5, y2=1., **kw)
+    s = spb.add_bladestiff2d(ys=0.5, bb=0.1, bstack=[0]*4, bplyt=1.25e-4, blaminaprop=lp, bf=0.05, fstack=[0]*8, fplyt=spb.plyt, flaminaprop=lp, mf=3, nf=3)
+    k0 = np.asarray(spb.calc_k0(silent=True).todense())
+    return float(s.base.offset), k0
+o1, k1 = bay(False); o2, k2 = bay(True)
+out = {"base_offset_plyt_only": o1, "base_offset_explicit_plyts": o2, "expected": -(5e-4/2 + 5e-4/2), "k0_rel_difference": float(abs(k1 - k2).max()/abs(k2).max())}
+'''
+    r = run_real(script, {})
+    r['reproduced'] = bool(r.get('raised') or abs(r.get('base_offset_plyt_only', 0) - r.get('expected', 0)) > 1e-12)
+    r['input'] = 'bay 2 x 1, skins [0,90,90,0] added with plyt=1.25e-4 only, blade stiffener with a 4-ply base at ys=0.5'
+    return r
+
+
+def check_tstiff2d_kG0_kM(led, only=None):
     """TStiff2D.calc_kG0 / calc_kM: base block at (row0, col0), flange block right after the base, global size, nothing else"""
     for which in ('kG0', 'kM'):
+        if only and which not in only:
+            continue
         func = TF + 'calc_' + which
         led.function(func)
         it, calls = py_panel.mk()
@@ -718,6 +769,7 @@ def check_tstiff2d_kG0_kM(led):
             wrap, kern, scales = kernels_of(s.attrs[which])
             fn = {'kG0': 'fkG0', 'kM': 'fkM'}[which]
             probs = []
+            probs += unfinalized(wrap)
             if [t.f['fn'].replace('y1y2', '') for t in kern] != [fn, fn]:
                 probs.append('contributions %s, expected the base and the flange %s' % ([t.f['fn'] for t in kern], fn))
             else:
